@@ -970,6 +970,21 @@ def m_print_to_file(eng, st, node):
     lines_add(eng, st, 1 + extra, node)
 
 
+def m_csv_writer(eng, st, args, kwargs, node):
+    return st.alloc(HObj("csv.writer", {"stream": args[0]}))
+
+
+def m_writerow(eng, st, recv, args, kwargs, node):
+    """csv.writer(f).writerow(fields): one line; the fields are recorded (ghost) so that a contract can say what was written"""
+    o = st.heap[recv.addr] if isinstance(recv, VRef) else None
+    if not (isinstance(o, HObj) and o.cls == "csv.writer"):
+        raise Unsupported("writerow on %r" % (recv,))
+    lines_add(eng, st, 1, node)
+    st.ghost = dict(st.ghost)
+    st.ghost["csv_rows"] = tuple(st.ghost.get("csv_rows", ())) + (args[0],)
+    return VNone()
+
+
 def m_prettyprinter(eng, st, args, kwargs, node):
     if "width" not in kwargs or "stream" not in kwargs:
         raise Unsupported("PrettyPrinter without width= / stream= (line %d)" % node.lineno)
@@ -1455,7 +1470,14 @@ def m_np_vstack(eng, st, args, kwargs, node):
     elif eng.is_seq(lst, st):
         lo = st.heap[lst.addr]
         if not z3.is_int_value(z3.simplify(lo.len)):
-            raise Unsupported("np.vstack of a list of symbolic length (line %d)" % node.lineno)
+            # a list of rows of symbolic length: row r is whatever the list holds at r (all rows must be as long as row 0)
+            lg = lo.get
+            row0 = st.heap[lg(z3.IntVal(0)).addr]
+            rq = z3.Int(fresh_name("r!vs"))
+            s2 = st.fork()
+            s2.pc = list(st.pc) + [0 <= rq, rq < lo.len]
+            eng.oblige(s2, "np.vstack rows have equal length", st.heap[lg(rq).addr].len == row0.len, "safety", node)
+            return st.alloc(H2D(lo.len, row0.len, lambda r, c: as_float(st.heap[lg(r).addr].get(c)), etype=T.float))
         rows = [lo.get(z3.IntVal(i)) for i in range(z3.simplify(lo.len).as_long())]
     else:
         raise Unsupported("np.vstack(%r)" % (lst,))
@@ -1597,6 +1619,7 @@ def install(eng):
     M["np.nanargmin"] = m_np_nanargmin
     M["np.vstack"] = m_np_vstack
     M["np.transpose"] = m_np_transpose
+    M["np.atleast_2d"] = lambda eng, st, args, kwargs, node: args[0] if (isinstance(args[0], VRef) and isinstance(st.heap[args[0].addr], H2D)) else (_ for _ in ()).throw(Unsupported("np.atleast_2d of a non-matrix"))
     M["builtin:sorted"] = m_sorted
     M["np.linspace"] = m_np_linspace
     M["subscript2d"] = m_subscript2d
@@ -1631,6 +1654,8 @@ def install(eng):
     M["comm.Barrier"] = m_barrier
     M["pprint.PrettyPrinter"] = m_prettyprinter
     eng.methods["pprint"] = m_pprint
+    M["csv.writer"] = m_csv_writer
+    eng.methods["writerow"] = m_writerow
     eng.methods.update({"append": m_append, "copy": m_copy, "cumsum": m_cumsum, "astype": m_astype,
                         "keys": m_dict_keys, "readlines": m_readlines, "lstrip": m_lstrip, "isdigit": m_isdigit, "replace": m_replace,
                         "lower": m_lower, "startswith": m_startswith, "join": m_join})
